@@ -194,86 +194,95 @@ Qed.
 
 (* c11_sweep_exact: for every well-shaped network the untruncated column sweep, left-to-right
    (step None or 1) and right-to-left (step -1), returns exactly the contraction value *)
-Theorem sweep_exact_gen trunc r tn :
+Lemma last_cons_any {X} (x : X) l d : last (x :: l) d = last l x.
+Proof. destruct l as [|y l]; [reflexivity|]. change (last (y :: l) d = last (y :: l) x). apply last_indep. Qed.
+
+Theorem sweep_exact_fwd trunc r tn :
   (forall c p, trunc c p = Ok (p, rI)) -> netwf r tn ->
-  contract_gen K trunc tn None None None = Ok (Scalar (value r tn))
-  /\ contract_gen K trunc tn None None (Some 1%Z) = Ok (Scalar (value r tn))
-  /\ contract_gen K trunc tn None None (Some (-1)%Z) = Ok (Scalar (value r tn)).
+  contract_gen K trunc tn None None None = Ok (Scalar (value r tn)).
 Proof.
   intros Hnoop Hwf.
   pose proof (netwf_colok r tn Hwf) as Hok.
   pose proof Hwf as (Hne & HC & HH & _ & _ & HWest & HEast & _).
-  assert (Hfwd : contract_gen K trunc tn None None None = Ok (Scalar (value r tn))).
-  { unfold contract_gen. rewrite slice_full, range_full.
+  unfold contract_gen. rewrite slice_full. cbv beta iota zeta. rewrite range_full.
     destruct tn as [|A rest]; [contradiction|].
     cbn [length seq map]. rewrite <- seq_shift, map_map.
-    rewrite map_length, seq_length, Z.eqb_refl. cbn [Z.ltb Z.compare].
-    inversion Hok as [|? ? HA Hrest]; subst.
-    rewrite (sweep_noop (A :: rest) trunc Hnoop r) .
-    2:{ destruct HA as ((L & _) & _). exact L. }
+    cbn [length]. rewrite map_length, seq_length, Z.eqb_refl. cbn [Z.ltb Z.compare].
+    pose proof (Forall_inv Hok) as HA. pose proof (Forall_inv_tail Hok) as Hrest.
+    pose proof (Forall_inv HC) as HCA. pose proof (Forall_inv_tail HC) as HCrest.
+    assert (HLA : length A = r) by (destruct HCA; auto).
+    change (column K (A :: rest) (Z.of_nat 0)) with A.
+    assert (Hcols : map (column K (A :: rest)) (map (fun x => Z.of_nat (S x)) (seq 0 (length rest))) = rest).
+    { rewrite map_map. rewrite (map_ext _ (fun i => nth i rest [])).
+      - apply map_nth_seq.
+      - intros i. unfold column. rewrite Nat2Z.id. reflexivity. }
+    rewrite (sweep_noop (A :: rest) trunc Hnoop r); [|exact HLA|].
     2:{ apply Forall_forall. intros c Hc. apply in_map_iff in Hc. destruct Hc as (i & <- & Hi). apply in_seq in Hi.
         unfold column. rewrite Nat2Z.id. cbn [nth].
         apply colok_length in Hrest. rewrite Forall_forall in Hrest. apply Hrest. apply nth_In. lia. }
-    unfold column at 2. cbn [Z.to_nat nth].
-    rewrite map_map.
-    rewrite (map_ext _ (fun i => nth i rest [])) by (intros i; unfold column; rewrite Nat2Z.id; reflexivity).
-    rewrite map_nth_seq.
-    rewrite (fold_left_ext_pairwise rest A) || idtac.
+    rewrite Hcols.
+    change (fold_left (fun acc m : col => if true then pairwise acc m else pairwise m acc) rest A)
+      with (fold_left pairwise rest A).
+    destruct (sweep_left_shape K r rest A A HCA HCrest eq_refl HH) as (_ & Sdw & Sde).
     apply (final_scalar r (A :: rest)); auto.
     - apply fold_left_colok; auto.
-    - pose proof (sweep_left_shape K r rest A A) as S.
-      destruct S as (_ & _ & S); auto using colok_colwf. { inversion HC; auto. } { apply colok_colwf; auto. }
-      rewrite S. cbn [last] in HEast. destruct rest; exact HEast.
-    - pose proof (sweep_left_shape K r rest A A) as S.
-      destruct S as (_ & S & _); auto using colok_colwf. { inversion HC; auto. } { apply colok_colwf; auto. }
-      rewrite S. exact HWest.
-    - intros i. rewrite (fold_left_occ r); auto using colok_length.
-      + reflexivity.
-      + destruct HA as ((L & _) & _). exact L.
+    - refine (eq_trans Sde _). rewrite <- (last_cons_any A rest []). exact HEast.
+    - exact (eq_trans Sdw HWest).
+    - intros i. exact (fold_left_occ r rest A i HLA (colok_length r rest Hrest)).
     - apply (sweep_left_netop K r); auto.
       + cbn [hd] in HWest. rewrite HWest. apply inr_zeros_ones.
-      + replace (last rest A) with (last (A :: rest) []) by (destruct rest; [reflexivity|apply last_indep]).
-        rewrite HEast. apply inr_zeros_ones. }
-  split; [exact Hfwd|]. split.
-  { (* step = 1 is the same computation *) exact Hfwd. }
-  (* right-to-left *)
-  unfold contract_gen. rewrite slice_rev, range_rev.
+      + rewrite <- (last_cons_any A rest []).
+        rewrite HEast. apply inr_zeros_ones.
+Qed.
+
+Lemma step1_same trunc tn : contract_gen K trunc tn None None (Some 1%Z) = contract_gen K trunc tn None None None.
+Proof. reflexivity. Qed.
+
+Theorem sweep_exact_rev trunc r tn :
+  (forall c p, trunc c p = Ok (p, rI)) -> netwf r tn ->
+  contract_gen K trunc tn None None (Some (-1)%Z) = Ok (Scalar (value r tn)).
+Proof.
+  intros Hnoop Hwf.
+  pose proof (netwf_colok r tn Hwf) as Hok.
+  pose proof Hwf as (Hne & HC & HH & _ & _ & HWest & HEast & _).
+  unfold contract_gen. rewrite slice_rev. cbv beta iota zeta. rewrite range_rev.
   destruct (exists_last Hne) as (l & Zc & E). subst tn.
   rewrite app_length. cbn [length]. rewrite Nat.add_1_r. cbn [seq map].
   rewrite <- seq_shift, map_map.
-  rewrite map_length, seq_length.
-  replace (Z.of_nat (S (length l)) =? Z.of_nat (S (length l)))%Z with true by (symmetry; apply Z.eqb_refl).
+  cbn [length]. rewrite map_length, seq_length, Z.eqb_refl.
   cbn [Z.ltb Z.compare].
-  apply Forall_app in Hok. destruct Hok as [Hl HZ]. inversion HZ as [|? ? HZc _]; subst.
+  apply Forall_app in Hok. destruct Hok as [Hl HZ]. pose proof (Forall_inv HZ) as HZc.
+  assert (HLZ : length Zc = r) by (destruct HZc as ((L & _) & _); exact L).
   assert (Hcol : forall i, i <= length l ->
              column K (l ++ [Zc]) (Z.of_nat (S (length l)) - 1 - Z.of_nat i) = nth i (Zc :: rev l) []).
   { intros i Hi. unfold column.
     replace (Z.to_nat (Z.of_nat (S (length l)) - 1 - Z.of_nat i)) with (length l - i) by lia.
     replace (Zc :: rev l) with (rev (l ++ [Zc])) by (rewrite rev_app_distr; reflexivity).
     rewrite rev_nth by (rewrite app_length; cbn; lia). f_equal. rewrite app_length. cbn. lia. }
-  rewrite (sweep_noop (l ++ [Zc]) trunc Hnoop r).
-  2:{ rewrite (Hcol O) by lia. cbn [nth]. destruct HZc as ((L & _) & _). exact L. }
+  rewrite (Hcol O) by lia. cbn [nth].
+  assert (Hcols : map (column K (l ++ [Zc]))
+                      (map (fun x : nat => (Z.of_nat (S (length l)) - 1 - Z.of_nat (S x))%Z) (seq 0 (length l))) = rev l).
+  { rewrite map_map. rewrite (map_ext_in _ (fun i => nth i (rev l) [])).
+    - rewrite <- (rev_length l) at 1. apply map_nth_seq.
+    - intros i Hi. apply in_seq in Hi. rewrite Hcol by lia. reflexivity. }
+  rewrite (sweep_noop (l ++ [Zc]) trunc Hnoop r); [|exact HLZ|].
   2:{ apply Forall_forall. intros c Hc. apply in_map_iff in Hc. destruct Hc as (i & <- & Hi). apply in_seq in Hi.
       rewrite Hcol by lia. cbn [nth].
       apply colok_length in Hl. rewrite Forall_forall in Hl. apply Hl. apply in_rev. apply nth_In. rewrite rev_length. lia. }
-  rewrite (Hcol O) by lia. cbn [nth].
-  rewrite map_map.
-  rewrite (map_ext_in _ (fun i => nth i (rev l) [])).
-  2:{ intros i Hi. apply in_seq in Hi. rewrite Hcol by lia. reflexivity. }
-  rewrite <- (rev_length l) at 1. rewrite map_nth_seq.
-  assert (Hfold : fold_left (fun acc m : col => pairwise m acc) (rev l) Zc = fold_right pairwise Zc l).
+  rewrite Hcols.
+  assert (Hfold : fold_left (fun acc m : col => if false then pairwise acc m else pairwise m acc) (rev l) Zc
+                  = fold_right pairwise Zc l).
   { rewrite <- (rev_involutive l) at 2. rewrite fold_left_rev_right. reflexivity. }
-  cbv beta iota. rewrite Hfold.
-  assert (HCl : Forall (colwf r) (l ++ [Zc])) by exact HC.
-  destruct (sweep_right_shape K r l Zc HCl HH) as (_ & Sdw & Sde).
+  rewrite Hfold.
+  destruct (sweep_right_shape K r l Zc HC HH) as (_ & Sdw & Sde).
+  rewrite last_last in HEast.
   apply (final_scalar r (l ++ [Zc])); auto.
   - apply fold_right_colok; auto.
-  - rewrite Sde. rewrite last_last in HEast. exact HEast.
-  - rewrite Sdw. destruct l; exact HWest.
-  - intros i. apply (fold_right_occ r); auto using colok_length. destruct HZc as ((L & _) & _). exact L.
+  - exact (eq_trans Sde HEast).
+  - refine (eq_trans Sdw _). destruct l; exact HWest.
+  - intros i. apply (fold_right_occ r); auto using colok_length.
   - apply (sweep_right_sem K r); auto.
     + replace (hd Zc l) with (hd [] (l ++ [Zc])) by (destruct l; reflexivity). rewrite HWest. apply inr_zeros_ones.
-    + rewrite last_last in HEast. rewrite HEast. apply inr_zeros_ones.
+    + rewrite HEast. apply inr_zeros_ones.
 Qed.
-
 End Exact.
